@@ -455,6 +455,30 @@ Proof.
     cbn [map] in Hm. rewrite Hm. reflexivity.
 Qed.
 
+(** * Calls that rely on the default href *)
+Lemma client_body_denote path r : client_body href_fmt path r = client_body href_fmt path (denote path r).
+Proof.
+  destruct r as [q|m]; [reflexivity |]. unfold denote. destruct m as [ps cr]. cbn [mg_paths mg_cr].
+  destruct ps; reflexivity.
+Qed.
+
+Lemma denote_expressible path r : expressible href_fmt href_parse r = true -> denote path r = r.
+Proof.
+  unfold expressible. destruct r as [q|m]; [reflexivity |]. cbn [normalise valid denote mg_paths].
+  intros H. apply andb_true_iff in H. destruct H as [H _]. apply andb_true_iff in H. destruct H as [_ H].
+  destruct (mg_paths m); [discriminate | reflexivity].
+Qed.
+
+Theorem client_conformant_call path r :
+  expressible href_fmt href_parse (denote path r) = true ->
+  rfc_read href_parse (client_body href_fmt path r) = Some (normalise (denote path r)).
+Proof. intros H. rewrite client_body_denote. now apply client_conformant. Qed.
+
+Theorem end_to_end_call path r :
+  expressible href_fmt href_parse (denote path r) = true -> fits_request (denote path r) = true ->
+  handle_report href_parse path (client_body href_fmt path r) = Ok (backend_call_of path (normalise (denote path r))).
+Proof. intros H Hf. rewrite client_body_denote. now apply end_to_end. Qed.
+
 (** * The oracle's verdict functions *)
 Lemma sb_refl {A} (dec : forall a b : A, {a = b} + {a <> b}) a : sb (dec a a) = true.
 Proof. destruct (dec a a); [reflexivity | contradiction]. Qed.
@@ -467,9 +491,13 @@ Theorem server_in_domain_ok path r doc :
 Proof.
   unfold server_in_domain. intros H. apply andb_true_iff in H. destruct H as [Hv Hb].
   apply andb_true_iff in Hv. destruct Hv as [Hv Hfit].
-  apply variant_b_lexvar in Hb. split.
-  - now apply (server_denotes href_fmt).
-  - now apply (rfc_read_lex href_fmt).
+  apply orb_true_iff in Hb. destruct Hb as [Hb|Hb].
+  - apply variant_b_lexvar in Hb. split.
+    + now apply (server_denotes href_fmt).
+    + now apply (rfc_read_lex href_fmt).
+  - apply andb_true_iff in Hb. destruct Hb as [Hw Hb]. apply variant_b_lexvar_nc in Hb. split.
+    + now apply (server_denotes_nc href_fmt).
+    + now apply (rfc_read_lex_nc href_fmt).
 Qed.
 
 (** model ⊑ specification, in the form of DESIGN.md section 5 *)
@@ -484,9 +512,9 @@ Theorem client_model_meets_spec path r :
   client_spec_ok href_fmt href_parse path r (client_body href_fmt path r)
                  (handle_report href_parse path (client_body href_fmt path r)) = true.
 Proof.
-  unfold client_spec_ok. destruct (expressible href_fmt href_parse r) eqn:E; [|reflexivity].
-  destruct (fits_request r) eqn:Ef; [|reflexivity]. cbn [andb].
-  rewrite (client_conformant path _ E), (end_to_end path _ E Ef). now rewrite !sb_refl.
+  unfold client_spec_ok. cbv zeta. destruct (expressible href_fmt href_parse (denote path r)) eqn:E; [|reflexivity].
+  destruct (fits_request (denote path r)) eqn:Ef; [|reflexivity]. cbn [andb].
+  rewrite (client_conformant_call path _ E), (end_to_end_call path _ E Ef). now rewrite !sb_refl.
 Qed.
 
 End Main.
